@@ -2,3 +2,19 @@ add("C02", "runtime monitoring: differential execution of the real interpreter a
     "Exploration: every binary/unary operator on every ordered pair of a 45-value pool (all runtime kinds, boundary magnitudes, several producers per value), plus seeded random doubles/integers/nested expressions; each execution of the real code is compared with refborno's value-or-fault. Held means held on the executions listed in the evidence, nothing more.",
     "Trusted: the harness's Go float64 arithmetic, math.Mod, math.Pow (cross-checked with math/big on exact powers), strconv.ParseFloat for numeral read-back; refborno's reading of the property.",
     "DESIGN.md §4 C02")
+add("C01", "runtime monitoring: reference-parser tree equality and print/parse round-trip monitors over enumerated operator pairs/triples, suffix/assignment/statement forms, all short token sequences and seeded random trees",
+    "Exploration: every accepted text among the enumerated families has the real parser's tree (walked through exported AST fields) compared with an independent precedence-table parser; random trees are printed with minimal/full parentheses and re-parsed by the real parser; parenthesised variants are executed and must print the same.",
+    "Trusted: the 13-row precedence table and statement parser in harness/ref/parser.go (cross-checked against the Earley grammar on every accepted text); AST walked through exported fields of package ast.",
+    "DESIGN.md §4 C01")
+add("C08", "runtime monitoring: spec lexer + Earley recogniser (grammar as data) as accept/reject and first-error-position oracle; panic, step-budget and nothing-ran monitors on hooked executions; CLI exit/stdout monitor",
+    "Exploration: all short token sequences and fragment strings, every prefix of corpus programs extended by every token, reserved names, parameter limits, random soup/mutations, 10000-deep nests; the real front end's accept/reject, first diagnostic line, totality (hook step budgets, recovered panics) and 'nothing executed' (evaluation-step hook, stdout) are checked on each.",
+    "Trusted: the transcription of grammer.txt with C08's amendments in harness/ref/earley.go; the hook counters in /repo/vhook.",
+    "DESIGN.md §4 C08")
+add("C09", "runtime monitoring: spec-lexer differential plus source-partition/line invariant on every ScanTokens result over exhaustive short fragment strings and every Unicode scalar value",
+    "Exploration: token lists (type, lexeme, literal, line, single EOF) compared with an independent longest-match lexer; partition and line invariant computed from the source text; lexical diagnostics matched one-to-one with the spec lexer's error list.",
+    "Trusted: Go's unicode tables; harness/ref/lexer.go.",
+    "DESIGN.md §4 C09")
+add("C10", "runtime monitoring: exact big-rational nearest-even oracle on every NUMBER token; exhaustive per-code-point transliteration/classification; script-respelling equality monitor",
+    "Exploration with an exhaustively enumerated sub-space: all 1,112,064 Unicode scalar values for transliteration and digit classification; all digit strings of length <=4 with all script mixtures (<=3); seeded random literals including exact midpoints, subnormals and the overflow threshold.",
+    "Trusted: math/big rational arithmetic; math.Nextafter.",
+    "DESIGN.md §4 C10")
